@@ -2,6 +2,7 @@ package main
 
 import (
 	"bytes"
+	"errors"
 	"fmt"
 	"reflect"
 
@@ -267,6 +268,9 @@ type sizeStats struct {
 }
 
 // CheckSlabBytes is M-size + M-rt for one standalone slab.
+// errEncodeRefused: the library refused to encode the slab because of the 256-entry limit (World.TolerateInlineLimit).
+var errEncodeRefused = errors.New("verif: encoding refused (more than 256 inlined extra-data entries)")
+
 func CheckSlabBytes(slab atree.Slab, st *sizeStats) error {
 	id := slab.SlabID()
 	vi := atree.VerifSlabInfo(slab)
@@ -275,6 +279,9 @@ func CheckSlabBytes(slab atree.Slab, st *sizeStats) error {
 	}
 	data, err := atree.EncodeSlab(slab, cborEncMode)
 	if err != nil {
+		if isInlineLimitRefusal(err) {
+			return errEncodeRefused
+		}
 		return fmt.Errorf("slab %s does not encode: %v", id, err)
 	}
 	return checkRegisterAgainstLive(id, data, slab, vi, st)
@@ -595,6 +602,10 @@ func (w *World) checkSizesImpl() error {
 			continue
 		}
 		if err := CheckSlabBytes(slab, &st); err != nil {
+			if err == errEncodeRefused && w.TolerateInlineLimit {
+				w.stats.Extra["encode-refusals-over-256-inlined-entries"]++
+				continue
+			}
 			return viol("bytes", "%v", err)
 		}
 	}
